@@ -5,24 +5,57 @@ use crate::dynciph::{Inst, Shape};
 use crate::registry::{entries, Entry, Made};
 use refmodels::RefCipher;
 
+/// Single-block call shapes rotated by the case tag: in place, buffer-to-buffer and in/out over
+/// separate buffers (the output buffer is pre-filled with a recognisable pattern), through the
+/// front-end and directly through the backend.
+const SINGLE_SHAPES: [(Shape, bool); 6] = [
+    (Shape::Block, false),
+    (Shape::BlockB2b, true),
+    (Shape::BlockInout, true),
+    (Shape::BlockInout, false),
+    (Shape::BackendBlock, true),
+    (Shape::Blocks, false),
+];
+const BATCH_SHAPES: [(Shape, bool); 6] = [
+    (Shape::Blocks, false),
+    (Shape::BlocksB2b, true),
+    (Shape::BlocksInout, true),
+    (Shape::BackendPar, false),
+    (Shape::BackendPar, true),
+    (Shape::BlocksInout, false),
+];
+
+pub fn run_shape(inst: &Inst, encrypt: bool, shape: (Shape, bool), data: &[u8]) -> Vec<u8> {
+    if shape.1 {
+        let mut out: Vec<u8> = (0..data.len()).map(|i| 0xC3 ^ (i as u8).wrapping_mul(29)).collect();
+        inst.run(encrypt, shape.0, Some(data), &mut out);
+        out
+    } else {
+        let mut out = data.to_vec();
+        inst.run(encrypt, shape.0, None, &mut out);
+        out
+    }
+}
+
 fn cmp_case(rep: &mut Report, e: &Entry, id: &str, inst: &Inst, r: &dyn RefCipher, key: &[u8], x: &[u8], random: bool, tag: u64) {
+    let h = case_hash(id, key, x, tag);
+    let shape = SINGLE_SHAPES[(h % 6) as usize];
     // encrypt
-    let mut got = x.to_vec();
-    inst.enc1(&mut got);
+    let got = run_shape(inst, true, shape, x);
     let mut want = x.to_vec();
     r.encrypt(&mut want);
-    rep.case(case_hash(id, key, x, tag), random);
+    rep.case(h, random);
     if got != want {
-        rep.violation(format!("kat|{}|encrypt!=reference|keylen={}", id, key.len()), detail(id, key, x, &want, &got, "encrypt vs reference model"));
+        rep.violation(format!("kat|{}|encrypt!=reference|keylen={}", id, key.len()), detail(id, key, x, &want, &got, &format!("encrypt vs reference model (shape {}{})", shape.0.name(), if shape.1 { ", separate buffers" } else { "" })));
     }
     // decrypt
-    let mut got = x.to_vec();
-    inst.dec1(&mut got);
+    let shape = SINGLE_SHAPES[((h >> 8) % 6) as usize];
+    let got = run_shape(inst, false, shape, x);
     let mut want = x.to_vec();
     r.decrypt(&mut want);
     rep.case(case_hash(id, key, x, tag + 1), random);
     if got != want {
-        rep.violation(format!("kat|{}|decrypt!=reference|keylen={}", id, key.len()), detail(id, key, x, &want, &got, "decrypt vs reference model"));
+        rep.violation(format!("kat|{}|decrypt!=reference|keylen={}", id, key.len()), detail(id, key, x, &want, &got, &format!("decrypt vs reference model (shape {}{})", shape.0.name(), if shape.1 { ", separate buffers" } else { "" })));
     }
     let _ = e;
 }
@@ -72,7 +105,7 @@ pub fn run_convert(ctx: &Ctx) -> Report {
 fn run_selected(ctx: &Ctx, name: &str, select: fn(&Entry) -> bool, extras: bool) -> Report {
     let mut rep = Report::new(name);
     let es = entries();
-    let nkeys = ctx.budget(400, 30_000, 2);
+    let nkeys = ctx.budget(2000, 30_000, 2);
     let have_ossl = ossl::available();
     rep.extra.insert("libcrypto".into(), J::B(have_ossl));
     for e in es.iter().filter(|e| ctx.wants(e) && select(e)) {
@@ -126,8 +159,8 @@ fn run_selected(ctx: &Ctx, name: &str, select: fn(&Entry) -> bool, extras: bool)
             let n = 1 + rng.below(2 * w + 2);
             let data = gen::gen(&mut rng, n * bs, 0);
             for encrypt in [true, false] {
-                let mut got = data.clone();
-                inst.run(encrypt, Shape::Blocks, None, &mut got);
+                let bshape = BATCH_SHAPES[((i + encrypt as u64) % 6) as usize];
+                let got = run_shape(&inst, encrypt, bshape, &data);
                 let mut want = data.clone();
                 for b in want.chunks_exact_mut(bs) {
                     if encrypt {
@@ -295,7 +328,7 @@ fn refmodels_rc2(key: &[u8], bits: usize) -> Option<Box<dyn RefCipher>> {
 
 /// Metamorphic relations that need no model (C05, C09, C10).
 fn relations(ctx: &Ctx, rep: &mut Report) {
-    let n = ctx.budget(300, 20_000, 2);
+    let n = ctx.budget(3000, 40_000, 2);
     let want = |p: &str, name: &str| ctx.prop.as_deref().map(|x| x == p).unwrap_or(true) && ctx.wants_name(name);
     if want("C05", "des::relations") {
         let mut rng = ctx.rng("kat:desrel");
